@@ -232,7 +232,7 @@ func checkSnapshot(got, want snapView) (string, string) {
 	}
 	for i := range got.Users {
 		if got.Users[i].Name != want.Users[i].Name {
-			return "snapshot-users-list", fmt.Sprintf("user %d is %q, expected %q (sorted, each once): got %s", i, got.Users[i].Name, want.Users[i].Name, got)
+			return "snapshot-users-list", fmt.Sprintf("user %d (by name) is %q, expected %q (each user with recorded sessions exactly once): got %s", i, got.Users[i].Name, want.Users[i].Name, got)
 		}
 		if got.Users[i].F != want.Users[i].F {
 			return "snapshot-user-figures", fmt.Sprintf("user %q: snapshot %s, recorded since last reset %s", got.Users[i].Name, got.Users[i].F, want.Users[i].F)
@@ -468,6 +468,15 @@ func run(o *common.Options, rep *common.Report) error {
 		}
 		return evalSeq([]Case{c}, o, rep)
 	}
+	if os.Getenv("C14_RACE_CHILD") != "" { // child built with -race: the concurrent engine only, oracle only
+		o.Driver = ""
+		var cfgs []ConcCfg
+		rc := common.NewRng(o.Seed ^ 0x7ace)
+		for i := 0; i < 300; i++ {
+			cfgs = append(cfgs, genConc(rc.Fork(uint64(i)), uint64(i), o))
+		}
+		return evalConc(cfgs, o, rep)
+	}
 	if err := probeF10(o, rep); err != nil {
 		return err
 	}
@@ -494,5 +503,11 @@ func run(o *common.Options, rep *common.Report) error {
 	for i := 0; i < nc; i++ {
 		cfgs = append(cfgs, genConc(rc.Fork(uint64(i)), uint64(i), o))
 	}
-	return evalConc(cfgs, o, rep)
+	if err := evalConc(cfgs, o, rep); err != nil {
+		return err
+	}
+	if o.Thorough() {
+		raceChild(o, rep)
+	}
+	return nil
 }
